@@ -859,9 +859,13 @@ func (n *IncludeNode) Render(w io.Writer, ctx *RenderContext) error {
 			// Only mode - create empty context
 			contextVars = make(map[string]interface{}, len(n.variables))
 		} else {
-			// For sandboxed mode but not 'only' mode, copy the parent context
-			contextVars = make(map[string]interface{}, len(ctx.context)+len(n.variables))
-			for k, v := range ctx.context {
+			// For sandboxed mode but not 'only' mode, copy everything the including
+			// template can see, not just the variables of its innermost scope (an
+			// including template that was itself included, or a macro body, keeps
+			// most of its variables in enclosing contexts)
+			visible := ctx.visibleVariables()
+			contextVars = make(map[string]interface{}, len(visible)+len(n.variables))
+			for k, v := range visible {
 				contextVars[k] = v
 			}
 		}
